@@ -8,6 +8,7 @@ CONSTANTS
   Kinds = {"asg", "del", "read", "mr", "raise", "ret", "brk", "cnt", "if", "while", "for"}
   HSh <- HShFin
   AsVars = FALSE
+  Pre <- PreNone
   MaxWord = 6
   Dump = TRUE
 INVARIANT GenWellFormed
